@@ -222,6 +222,24 @@ STRUCT = [
     ("null-required", "TextDocumentIdentifier", {"uri": None}),
 ]
 
+# large payloads (what real servers send): size-dependent fast paths must not change results nor affect
+# other converters while they run
+def _big(n):
+    return [{"label": f"item{i}", "kind": 1 + i % 25, "textEdit": {"range": R0, "newText": str(i)}} for i in range(n)]
+
+
+STRUCT += [
+    ("big-completion-items-1100", "CompletionResponse", _resp(_big(1100))),
+    ("big-completion-list-1300", "CompletionResponse", _resp({"isIncomplete": False, "items": _big(1300)})),
+    ("big-doc-symbols-1200", "DocumentSymbolResponse", _resp([{"name": f"s{i}", "kind": 12, "range": R1, "selectionRange": R0} for i in range(1200)])),
+    ("big-ws-symbols-1050", "WorkspaceSymbolResponse", _resp([{"name": f"s{i}", "kind": 12, "location": LOC} for i in range(1050)])),
+    ("big-locations-2100", "ReferencesResponse", _resp([LOC] * 2100)),
+    ("big-diagnostics-1500", "PublishDiagnosticsNotification", _notif("textDocument/publishDiagnostics", {"uri": "file:///x", "diagnostics": [{"range": R0, "message": str(i)} for i in range(1500)]})),
+    ("big-semantic-tokens-20000", "SemanticTokensResponse", _resp({"data": list(range(20000))})),
+    ("big-text-edits-5000", "DocumentFormattingResponse", _resp([{"range": R0, "newText": "x"}] * 5000)),
+]
+BIG = [i for i, b in enumerate(STRUCT) if b[0].startswith("big-")]
+
 BUILD = [
     ("b-position", "lsp.Position(line=1, character=2)"),
     ("b-range", "lsp.Range(start=lsp.Position(line=1, character=2), end=lsp.Position(line=3, character=4))"),
